@@ -95,3 +95,342 @@ def r09_1(prog, rep, rid="R09.1"):
                          "(facts at the store: %s)" % (text, var, cap, sorted(facts)),
                          {"function": f.name, "element": show(x), "block": b})
     return len(fl)
+
+
+# ---------------------------------------------------------------------------
+# R09.2 callers honour the filler contract
+
+def filler_offset(prog, f, seen=None):
+    """Largest constant offset C of stores tgt[res + C] in filler f (through delegation to other fillers)."""
+    seen = seen or set()
+    if f.name in seen:
+        return 0
+    seen.add(f.name)
+    off = 0
+    for b, i, idx, x, line in tgt_stores(f):
+        if idx.get("k") == "idx":
+            var, o, post = index_var(idx["i"])
+            if o:
+                off = max(off, o)
+    names = {g.name for g in fillers(prog)}
+    for b, i, c, line in f.all_calls():
+        if c.get("fn") in names and c["fn"] != f.name:
+            off = max(off, filler_offset(prog, prog.fn(c["fn"], FILLER_FILE), seen))
+    return off
+
+
+def _array_extent(prog, f, expr):
+    """Number of elements of the array an argument expression denotes, or None (pointer/parameter)."""
+    e = strip_casts(f.cfg.resolve(expr))
+    if e.get("k") == "mem":
+        rec = e.get("rec")
+        if rec:
+            try:
+                r = prog.record(rec)
+            except AnalysisBroken:
+                return None
+            for fld in r["fields"]:
+                if fld["n"] == e["f"]:
+                    return fld.get("extent")
+        return None
+    if e.get("k") == "ref":
+        if e.get("dk") in ("local", "slocal"):
+            for l in f.locals:
+                if l["n"] == e["n"]:
+                    return l.get("extent")
+        if e.get("dk") == "param":
+            return "param"
+    return None
+
+
+def r09_2(prog, rep, rid="R09.2"):
+    from ..q import const_eval
+    names = {g.name: g for g in fillers(prog)}
+    n = 0
+    for f in prog.all_fns():
+        if not f.cfg:
+            continue
+        for b, i, c, line in f.all_calls():
+            if c.get("fn") not in names:
+                continue
+            n += 1
+            g = names[c["fn"]]
+            off = filler_offset(prog, g)
+            ext = _array_extent(prog, f, c["a"][0])
+            key = "%s/%s(%s)" % (f.name, c["fn"], lv(f.cfg.resolve(c["a"][0])))
+            if ext == "param":
+                # delegation: the callee must not need more room than this filler promises to its own callers
+                own = filler_offset(prog, f) if f.name in names else None
+                if own is not None and off <= own and lv(f.cfg.resolve(c["a"][1])) == f.params[1]["n"]:
+                    rep.ok(rid, key, f.loc(line), "delegation passes (tgt, nti) through; callee offset %d <= own offset %d" % (off, own))
+                else:
+                    rep.fail(rid, key, f.loc(line), "delegating call passes a parameter array to a filler that writes %d entries beyond nti" % off)
+                continue
+            nti = const_eval(f, f.cfg.resolve(c["a"][1]))
+            if ext is None or nti is None:
+                rep.fail(rid, key, f.loc(line), "cannot determine array extent (%s) or requested count (%s)" % (ext, nti))
+                continue
+            if nti + off <= ext:
+                rep.ok(rid, key, f.loc(line), "array of %d entries, %d requested, filler writes up to index nti-1+%d" % (ext, nti, off))
+            else:
+                rep.fail(rid, key, f.loc(line),
+                         "%s is asked for %d results in an array of %d entries but also writes group stamps at tgt[res + %d]: indices up to %d are written" % (
+                             c["fn"], nti, ext, off, nti - 1 + off))
+    if n < 9:
+        rep.broken_("rule=%s expected >=9 filler call sites, found %d" % (rid, n))
+
+
+# ---------------------------------------------------------------------------
+# R09.3 no fruitless cycle without fuel
+
+R09_3_SCOPE = (("evrrul.c", None), ("evical.c", ("refill", "next_evrrul", "_ical_pull", "_ical_proc", "esccpy")),
+               ("bitint.h", None), ("bitint.c", None), ("bitint-bobs.c", None))
+# accepted exception, confirmed by reading (DESIGN C09/R09.3)
+R09_3_EXCEPTIONS = {
+    "rrul_fill_wly": "weekly stepping against BYMONTH only: every non-empty month set is eventually met by +7n day steps, and an empty set "
+                     "admits all months; no other filter is on the cycle",
+}
+
+
+def r09_3(prog, rep, rid="R09.3"):
+    from ..loops import analyse_loop, loop_key
+    nloops = 0
+    for file, only in R09_3_SCOPE:
+        for f in prog.fns_in(file):
+            if not f.cfg or (only and f.name not in only):
+                continue
+            loops = f.cfg.natural_loops()
+            seen = {}
+            for h, blks in sorted(loops.items(), reverse=True):
+                nloops += 1
+                k0 = loop_key(f, h, blks)
+                cnt = seen.get(k0, 0)
+                seen[k0] = cnt + 1
+                key = k0 if cnt == 0 else "%s#%d" % (k0, cnt)
+                res = analyse_loop(f, h, blks)
+                line = f.cfg.blocks[h].elems[-1].get("line") if f.cfg.blocks[h].elems else f.line
+                if res is None:
+                    rep.ok(rid, key, f.loc(line), "every cycle modifies something one of its exit tests reads", nontrivial=True)
+                    continue
+                # the main subtractive loop of a filler?
+                if f.name in R09_3_EXCEPTIONS and _is_main_loop(f, h):
+                    rep.note(rid, key, f.loc(line), "listed exception: " + R09_3_EXCEPTIONS[f.name])
+                    continue
+                cyc = " -> ".join("B%d" % b for b in res["cycle"][:12])
+                lines = sorted({f.cfg.blocks[b].elems[0].get("line") for b in res["cycle"] if f.cfg.blocks[b].elems and f.cfg.blocks[b].elems[0].get("line")})
+                rep.fail(rid, key, f.loc(line),
+                         "loop has a fruitless cycle (%s; lines %s..%s): the exit tests on it read %s, none of which is modified on the cycle, and it carries no "
+                         "fuel counter; a filter that never passes (incongruent INTERVAL/BYxxx) spins forever" % (
+                             cyc, lines[0] if lines else "?", lines[-1] if lines else "?",
+                             sorted(set().union(*res["test_reads"].values())) if res["test_reads"] else "nothing"),
+                         res)
+    if nloops < 60:
+        rep.broken_("rule=%s expected >=60 loops in scope, found %d" % (rid, nloops))
+    return nloops
+
+
+def _is_main_loop(f, h):
+    """The outermost loop of a filler whose header tests res < nti."""
+    c = f.cfg.cond(h)
+    if c is None:
+        return False
+    from ..flow import cond_atoms
+    cap = f.params[1]["n"] if len(f.params) > 1 else None
+    return any(len(a) == 5 and a[0] == "<" and a[2] == cap for a in cond_atoms(c, True))
+
+
+# ---------------------------------------------------------------------------
+# R09.4 time-of-day enumeration capacity
+
+def r09_4(prog, rep, rid="R09.4"):
+    from ..rules import bitint
+    from ..flow import MustFacts
+    rec = prog.record("enum_s", "evrrul.c")
+    ext = {f["n"]: f.get("extent") for f in rec["fields"]}
+    sf = prog.fn("snarf_rrule", "evical.c")
+    mf = MustFacts(sf.cfg)
+    admitted = {}
+    for b, i, c, line in sf.all_calls():
+        if c.get("fn") in ("ass_bui31", "ass_bui63"):
+            tgt = lv(strip_casts(sf.cfg.resolve(c["a"][0])))
+            val = strip_casts(sf.cfg.resolve(c["a"][1]))
+            lo, hi, nz = bitint.arg_interval(sf, mf, b, i, lv(val))
+            lo = (1 if nz else 0) if lo is None else lo
+            if hi is not None:
+                admitted[tgt.split(".")[-1]] = (lo, hi)
+    me = prog.fn("make_enum", "evrrul.c")
+    # which rr field fills which array, and is there an index guard?
+    fills = {}
+    for h, blks in me.cfg.natural_loops().items():
+        src = None
+        c = me.cfg.cond(h)
+        for nn in walk(c or {}):
+            if nn.get("k") == "call" and nn.get("fn", "").endswith("_next"):
+                src = lv(strip_casts(nn["a"][1])).split("->")[-1]
+        for b in blks:
+            for e in me.cfg.blocks[b].elems:
+                for l, kind, n in writes(e["x"]):
+                    l_ = strip_casts(l)
+                    if l_.get("k") == "idx" and "->" in lv(l_["b"]):
+                        arr = lv(l_["b"]).split("->")[-1]
+                        guarded = False
+                        cc = me.cfg.cond(h)
+                        from ..flow import cond_atoms
+                        for a in cond_atoms(cc, True) if cc is not None else []:
+                            if len(a) == 5 and a[0] == "<" and a[1] == lv(strip_casts(l_["i"]).get("e", l_["i"])):
+                                guarded = True
+                        fills[arr] = (src, guarded)
+    for arr in ("H", "M", "S"):
+        if arr not in fills or arr not in admitted or not ext.get(arr):
+            rep.fail(rid, "enum_s/%s" % arr, me.loc(), "cannot pair enum_s.%s with its source container and the parser guard (%s, %s, %s)" % (
+                arr, fills.get(arr), admitted.get(arr), ext.get(arr)))
+            continue
+        src, guarded = fills[arr]
+        lo, hi = admitted[src] if src in admitted else admitted[arr]
+        need = hi - lo + 1
+        key = "enum_s/%s" % arr
+        if guarded or need <= ext[arr]:
+            rep.ok(rid, key, me.loc(), "enum_s.%s[%d] holds the %d distinct values (%d..%d) the parser admits for BY%s%s" % (
+                arr, ext[arr], need, lo, hi, {"H": "HOUR", "M": "MINUTE", "S": "SECOND"}[arr], " (index guarded)" if guarded else ""))
+        else:
+            rep.fail(rid, key, me.loc(),
+                     "struct enum_s has %s[%d] but the parser admits %d distinct values (%d..%d) and make_enum has no index guard: a full list writes past the array" % (
+                         arr, ext[arr], need, lo, hi))
+
+
+# ---------------------------------------------------------------------------
+# R09.5 zero divisors
+
+def may_return_zero(prog, name, depth=0):
+    """Does function `name` have a path returning the constant 0 (directly or by returning a callee that may)?"""
+    if depth > 3 or not prog.functions.get(name):
+        return False
+    f = prog.functions[name][0]
+    if not f.cfg:
+        return False
+    from ..q import const_eval
+    for b, i, x, line in f.cfg.all_elems():
+        if isinstance(x, dict) and x.get("k") == "ret" and x.get("e") is not None:
+            e = strip_casts(f.cfg.resolve(x["e"]))
+            if const_eval(f, e) == 0:
+                return True
+            if e.get("k") == "call" and e.get("fn") and may_return_zero(prog, e["fn"], depth + 1):
+                return True
+    return False
+
+
+def r09_5(prog, rep, rid="R09.5"):
+    from ..flow import MustFacts, cond_atoms
+    n = 0
+    for f in prog.fns_in(FILLER_FILE):
+        if not f.cfg:
+            continue
+        cfg = f.cfg
+        # variables assigned from a may-return-zero function
+        zvars = {}
+        for b, i, x, line in cfg.all_elems():
+            for l, kind, nn in writes(x):
+                rhs = nn.get("init") if kind == "decl" else (nn.get("r") if nn.get("k") == "bin" and nn["op"] == "=" else None)
+                if rhs is None:
+                    continue
+                r = strip_casts(cfg.resolve(rhs))
+                if r.get("k") == "call" and r.get("fn") and may_return_zero(prog, r["fn"]):
+                    zvars.setdefault(lv(l), set()).add(r["fn"])
+                elif r.get("k") == "ref" and r["n"] in zvars:
+                    zvars.setdefault(lv(l), set()).update(zvars[r["n"]])
+        if not zvars:
+            continue
+
+        def gen(c, truth):
+            out = set()
+            for a in cond_atoms(c, truth):
+                if len(a) == 3 and a[0] == "true" and a[1] in zvars:
+                    out.add(("nz", a[1]))
+                if len(a) == 5 and a[0] == "!=" and a[1] in zvars and a[2] == "0":
+                    out.add(("nz", a[1]))
+                if len(a) == 5 and a[0] in (">", ">=") and a[1] in zvars and a[2].isdigit() and int(a[2]) >= (0 if a[0] == ">" else 1):
+                    out.add(("nz", a[1]))
+            return out
+
+        def kills(x):
+            return {lv(l) for l, kind, nn in writes(x)}
+        mf = MustFacts(cfg, gen=gen, kills=kills)
+        seen = {}
+        for b, i, x, line in cfg.all_elems():
+            for nn in walk(x):
+                if nn.get("k") == "bin" and nn["op"] in ("%", "/", "%=", "/="):
+                    d = lv(strip_casts(nn["r"]))
+                    if d in zvars:
+                        n += 1
+                        k0 = "%s/%s %s" % (f.name, nn["op"], d)
+                        cnt = seen.get(k0, 0)
+                        seen[k0] = cnt + 1
+                        key = k0 if cnt == 0 else "%s#%d" % (k0, cnt)
+                        facts = mf.at(b, i) or set()
+                        if ("nz", d) in facts:
+                            rep.ok(rid, key, f.loc(nn.get("line", line)), "divisor %s (from %s, which can return 0) is tested non-zero on every path" % (d, "/".join(sorted(zvars[d]))))
+                        else:
+                            rep.fail(rid, key, f.loc(nn.get("line", line)),
+                                     "`%s` divides by %s = %s(...), which returns 0 for months outside a table-based calendar's coverage, without a non-zero test: SIGFPE" % (
+                                         show(nn)[:50], d, "/".join(sorted(zvars[d]))))
+    if n < 3:
+        rep.broken_("rule=%s expected >=3 divisions by a month length, found %d" % (rid, n))
+
+
+# ---------------------------------------------------------------------------
+# R09.6 shift amounts in the fillers' masks
+
+def r09_6(prog, rep, rid="R09.6"):
+    """Every `1U << e` / `1ULL << e` in evrrul.c whose operand is a container iterator value or a calendar field has max(e) below the
+    width of the shifted type, using the container domains admitted by the parser (R19.1) and the calendar field ranges."""
+    from ..rules import bitint
+    from ..flow import MustFacts
+    # admitted maxima per rr field from the parser
+    sf = prog.fn("snarf_rrule", "evical.c")
+    mf = MustFacts(sf.cfg)
+    adm = {}
+    for b, i, c, line in sf.all_calls():
+        if c.get("fn") in bitint.ASS:
+            tgt = lv(strip_casts(sf.cfg.resolve(c["a"][0]))).lstrip("&").split(".")[-1]
+            val = strip_casts(sf.cfg.resolve(c["a"][1]))
+            if val.get("k") == "call":
+                continue
+            lo, hi, nz = bitint.arg_interval(sf, mf, b, i, lv(val))
+            if hi is not None:
+                adm[tgt] = max(abs(hi), abs(lo or 0))
+    n = 0
+    for f in prog.fns_in(FILLER_FILE):
+        if not f.cfg or not f.name.startswith("rrul_fill_"):
+            continue
+        cfg = f.cfg
+        # loop variable -> source rr field
+        srcs = {}
+        for h, blks in cfg.natural_loops().items():
+            c = cfg.cond(h)
+            for nn in walk(c or {}):
+                if nn.get("k") == "bin" and nn["op"] == "=" and strip_casts(nn["r"]).get("k") == "call" and strip_casts(nn["r"]).get("fn", "").endswith("_next"):
+                    fld = lv(strip_casts(strip_casts(nn["r"])["a"][1])).lstrip("&").split("->")[-1]
+                    srcs.setdefault(lv(nn["l"]), set()).add((fld, tuple(sorted(blks))))
+        seen = {}
+        for b, i, x, line in cfg.all_elems():
+            for nn in walk(x):
+                if nn.get("k") == "bin" and nn["op"] == "<<" and bitint.int_value(nn["l"]) == 1 and nn.get("w"):
+                    amt = strip_casts(nn["r"])
+                    v = None
+                    if amt.get("k") == "ref" and amt["n"] in srcs:
+                        flds = [fl for fl, blks in srcs[amt["n"]] if b in blks]
+                        if flds and all(fl in adm for fl in flds):
+                            v = max(adm[fl] for fl in flds)
+                    if v is None:
+                        continue
+                    n += 1
+                    k0 = "%s/1<<%s" % (f.name, amt["n"])
+                    cnt = seen.get(k0, 0)
+                    seen[k0] = cnt + 1
+                    key = k0 if cnt == 0 else "%s#%d" % (k0, cnt)
+                    if v < nn["w"]:
+                        rep.ok(rid, key, f.loc(nn.get("line", line)), "shift amount <= %d < %d bits" % (v, nn["w"]), nontrivial=(cnt == 0))
+                    else:
+                        rep.fail(rid, key, f.loc(nn.get("line", line)), "1 << %s with %s up to %d in a %d-bit type: undefined shift" % (amt["n"], amt["n"], v, nn["w"]))
+    if n < 8:
+        rep.broken_("rule=%s expected >=8 mask shifts fed by container values, found %d" % (rid, n))
